@@ -164,6 +164,11 @@ func duplexRun(ctx context.Context, rw varlink.ReadWriterContext, payload, reply
 		rctx, cancel := context.WithTimeout(ctx, 5*time.Second)
 		defer cancel()
 		n, err := rw.Read(rctx, buf)
+		if n < 0 || n > len(buf) {
+			// a byte count that cannot be: reported as "did not deliver the peer's bytes"
+			rc <- rres{nil, atomic.LoadInt32(peerSent) == 0, fmt.Errorf("read reported %d bytes for a buffer of %d", n, len(buf))}
+			return
+		}
 		// no clock involved: had the peer already started to answer when the Read came back?
 		rc <- rres{buf[:n], atomic.LoadInt32(peerSent) == 0, err}
 	}()
